@@ -25,7 +25,8 @@ QUERIES_FILE = ["entry offset", "entry ?TAG_typedef offset", "entry ?TAG_base_ty
                 "entry @AT_location elem", "entry ?AT_location attribute ?AT_location", "[entry attribute]", "entry ?AT_low_pc address", "entry ?root [child]",
                 "entry ?AT_location [attribute ?AT_location value]", "entry attribute ?AT_name dup value", "unit root", "entry (|D| D D name)",
                 "0 0 aset, 1 5 aset 7 9 aset add", "entry ?AT_location (@AT_location address, @AT_location elem offset)", "raw entry", "raw entry attribute"]
-ARGS = [("-a", "x"), ("-a", "hello"), ("--a", "1"), ("--a", "(1, 2)"), ("--a", "(1, 2, 3)"), ("--a", "!()"), ("--a", '"s"'), ("--a", '("p", "q")'), ("--a", "0x10"),
+ARGS = [("-a", "x"), ("-a", "hello"), ("-a", "a%%b"), ("-a", "%s"), ("-a", "<%s>"), ("-a", "%( 1 %)"), ("-a", 'q"q'), ("-a", "b\\s"), ("-a", "100%"), ("-a", ""),
+        ("-a", "two words"), ("-a", "%d=%x"), ("-a", "line\nbreak"), ("-a", "\\x41"), ("-a", "caf\u00e9"), ("--a", "1"), ("--a", "(1, 2)"), ("--a", "(1, 2, 3)"), ("--a", "!()"), ("--a", '"s"'), ("--a", '("p", "q")'), ("--a", "0x10"),
         ("--a", "[7, 8] elem"), ("--a", "1 )"), ("--a", "drop")]
 
 
